@@ -70,14 +70,15 @@ def run_scenario(ctx, sc, root=None, with_model=True):
     # 1. CLI process
     setup_dir(root, sc)
     before = out_state(root, sc["out"])
-    rc, so, se = core.cli(["build"] + args, cwd=root, env=sc.get("env"))
+    rc, so, se = core.cli(["build"] + args, cwd=root, env=sc.get("env"), stdout=sc.get("stdout"))
     after = out_state(root, sc["out"])
     text = None
     if after.startswith("file:") and after != before:
         text = open(os.path.join(root, sc["out"]), encoding="utf-8", errors="replace").read()
     cli = {"exit": rc, "stdout": so, "stderr": se, "before": before, "after": after, "text": text}
     res = {"cli": cli, "diffs": []}
-    if not getattr(ctx, "have_impl", True):
+    if not getattr(ctx, "have_impl", True) or sc.get("stdout"):
+        # a standard output that rejects writes is a property of the process: judged on the CLI observation alone
         return res
     # 2. in-process (structured errors), same directory state
     setup_dir(root, sc)
